@@ -35,13 +35,15 @@ static inline int bl_stoi(bl_sv s) {
   return (int)v;
 }
 #else
-int nondet_int(void); _Bool nondet_bool(void);
+/* the value and the out-of-range decision are (uninterpreted) functions of the argument slice: the
+ * same string converts to the same number every time */
+int __CPROVER_uninterpreted_stoi_value(const char *, size_t); _Bool __CPROVER_uninterpreted_stoi_overflows(const char *, size_t);
 static inline int bl_stoi(bl_sv s) {
   BL_ASSERT(s.n >= 1 && s.p[0] >= '0' && s.p[0] <= '9', "std::stoi argument starts with a digit (else std::invalid_argument)");
-  int v = nondet_int();
+  int v = __CPROVER_uninterpreted_stoi_value(s.p, s.n);
   __CPROVER_assume(v >= 0);
   if (s.n <= 9) __CPROVER_assume(v <= 999999999);
-  else if (nondet_bool()) { bl_throw_std(); return 0; }
+  else if (__CPROVER_uninterpreted_stoi_overflows(s.p, s.n)) { bl_throw_std(); return 0; }
   if (g_stoi_calls >= 0 && g_stoi_calls < BL_STOI_SLOTS) { g_stoi_arg_p[g_stoi_calls] = s.p; g_stoi_arg_n[g_stoi_calls] = s.n; g_stoi_ret[g_stoi_calls] = v; }
   if (g_stoi_calls < 1000) g_stoi_calls++;
   return v;
